@@ -72,6 +72,8 @@ class Ctx(object):
         self.implicit_deadlock = True
         self.notes = []
         self.concrete = pm.concrete is not None
+        self.smt_samples = []
+        self.smt_budget = 0
 
     # symbolic inputs
     def real(self, name, lo=None, hi=None, lo_strict=False):
@@ -93,6 +95,14 @@ class Ctx(object):
     def check(self, label, cond, info=None):
         st, model = self.pm.prove(cond)
         self.results.append((label, st, model, info))
+        if st == "proved" and self.smt_budget > 0 and isinstance(cond, SBool):
+            # keep the discharged obligation (PC and not A) as SMT-LIB2 for an independent solver
+            try:
+                import z3
+                self.smt_samples.append((label, self.pm.smt2(z3.Not(cond.t))))
+                self.smt_budget -= 1
+            except Exception:  # noqa
+                pass
         return st == "proved"
 
     def require(self, label, cond, info=None):
@@ -114,10 +124,10 @@ class PathResult(object):
     __slots__ = ("trace", "results", "reached", "deaths", "deadlock", "aborted", "error",
                  "points", "steps", "solver_s", "solver_calls", "unknowns", "stuck", "model",
                  "diverged", "infeasible", "sym_branches", "concretised", "ret", "nthreads",
-                 "funcs", "log")
+                 "funcs", "log", "smt")
 
 
-def run_one(scn, params, bounds, prefix, concrete=None, cov=False, want_log=False):
+def run_one(scn, params, bounds, prefix, concrete=None, cov=False, want_log=False, smt_budget=0):
     pm = PathManager(prefix, concrete=concrete, pbound=bounds.get("P", 0),
                      solver_timeout_ms=bounds.get("solver_timeout_ms", 10000))
     sym.set_pm(pm)
@@ -128,7 +138,9 @@ def run_one(scn, params, bounds, prefix, concrete=None, cov=False, want_log=Fals
     sch = sched.Scheduler(pm, eps=eps, gran=bounds.get("gran", 0),
                           max_steps=bounds.get("max_steps", 20000),
                           adversarial=bounds.get("adversarial", False))
+    sch.post_release = bool(bounds.get("post_release", False))
     ctx = Ctx(pm, sch, params, bounds)
+    ctx.smt_budget = smt_budget
     funcs = None
     if cov:
         funcs = set()
@@ -198,6 +210,7 @@ def run_one(scn, params, bounds, prefix, concrete=None, cov=False, want_log=Fals
     r.nthreads = len(sch.threads)
     r.funcs = funcs
     r.log = ctx.ev.dump() if want_log else None
+    r.smt = ctx.smt_samples
     return r
 
 
@@ -288,7 +301,7 @@ def explore(item):
         "violations": [], "reach": {}, "states": 0, "transitions": 0, "solver_s": 0.0,
         "solver_calls": 0, "divergences": 0, "infeasible": 0, "errors": [], "samples": [],
         "funcs": [], "leftover": [], "sym_branches": 0, "stuck": 0, "concretised": 0,
-        "step_limits": 0, "labels": {}, "max_preempt": 0,
+        "step_limits": 0, "labels": {}, "max_preempt": 0, "smt": [],
     }
     t0 = _clock()
     funcs = set()
@@ -297,8 +310,10 @@ def explore(item):
     while stack and n < budget and (_clock() - t0) < tbudget:
         prefix, _pre = stack.pop()
         cov = item.get("cov", False) and n == 0
-        r = run_one(scn, params, bounds, prefix, cov=cov)
+        r = run_one(scn, params, bounds, prefix, cov=cov, smt_budget=(1 if (n % 97 == 3 and len(out["smt"]) < 2) else 0))
         n += 1
+        if r.smt:
+            out["smt"].extend(r.smt[:1])
         if n % 64 == 0:
             gc.collect()
         if r.funcs:
